@@ -512,6 +512,16 @@ class LegacyOpensslVersion(Version):
             return other.is_prerelease()
         return self.value.__gt__(other.value)
 
+    def __le__(self, other):
+        if not isinstance(other, self.__class__):
+            return NotImplemented
+        return self.__lt__(other) or self.__eq__(other)
+
+    def __ge__(self, other):
+        if not isinstance(other, self.__class__):
+            return NotImplemented
+        return self.__gt__(other) or self.__eq__(other)
+
     def is_prerelease(self):
         return self.patch.startswith(("-beta", "-alpha"))
 
